@@ -10,7 +10,9 @@ What is transcribed (pipe.go, function by function):
 * `Do`/`DoMulti`: `ctx.Err()` check, `incrWaits`, `state` load, the three branches
   (`goto queue` / sync path when `state == 0 && waits == 1` / reject with `p.Error()`),
   `PutOne`/`PutMulti`, the `select` on the result channel and `ctx.Done`, the abort goroutine,
-  the tail `if left := decrWaitsAndIncrRecvs(); state == 0 && left != 0 { background() }`.
+  the tail `if left := decrWaitsAndIncrRecvs(); waits == 1 && left != 0 { background() }` (since fix
+  eac8ecc; before it the condition was `state == 0 && left != 0`, kept as `stepBefore_eac8ecc` for the
+  witness of the repaired defect only).
 * `background()`: CAS state 0→1 and CAS bgState 0→1 (taken as one step).
 * `_exit`: error latch CAS, state CAS 1→2, `conn.Close()` (taken as one step).
 * `_backgroundWrite`: `NextWriteCmd`/`WaitForWrite` (take the first entry with mark 1,
@@ -223,8 +225,10 @@ def enter (i : Nat) (s : St) : Option St :=
     else some { (setSt i (.counted (s.waits + 1)) s) with waits := s.waits + 1 }
   | _ => none
 
-/-- `state := atomic.LoadInt32(&p.state)` and the branch taken. `fix` = the tail condition also
-    covers a rejected call that holds wait number 1 (see `Rv.C04.Life`); the code as it is has `fix = false`. -/
+/-- `state := atomic.LoadInt32(&p.state)` and the branch taken. `fix = true` is the code as it is (tail
+    `waits == 1 && left != 0`, fix eac8ecc): a rejected call that holds wait number 1 still runs
+    `background()` in its tail when somebody is left. `fix = false` is the tail before eac8ecc
+    (`state == 0 && left != 0`), used only by `stepBefore_eac8ecc`. -/
 def decide (fix : Bool) (i : Nat) (s : St) : Option St :=
   match stOf s i with
   | some (.counted w) =>
@@ -475,6 +479,12 @@ def step (fix : Bool) (s : St) : Label → Option St
   | .closeGrace => closeGrace s
   | .closeTail => closeTail s
 
+/-- the model of the code as it is (repaired tail) -/
+abbrev stepNow : St → Label → Option St := step true
+
+/-- the step function of the tail before fix eac8ecc — only for the witness `close_race_strands_call` -/
+abbrev stepBefore_eac8ecc : St → Label → Option St := step false
+
 /-- a fresh pipe with the given callers; `pipelined` = `_newPipe` already called `background()`
     (AlwaysPipelining or an invalidation handler) -/
 def init (calls : List Call) (pipelined : Bool) (blockFree : Bool := true) : St :=
@@ -489,7 +499,10 @@ def run (fix : Bool) : St → List Label → Option St
     | some s' => run fix s' ls
     | none => none
 
-/-- states reachable from a fresh pipe -/
+abbrev runNow : St → List Label → Option St := run true
+abbrev runBefore_eac8ecc : St → List Label → Option St := run false
+
+/-- states reachable from a fresh pipe (`Reachable true` = the code as it is) -/
 inductive Reachable (fix : Bool) : St → Prop where
   | init (calls : List Call) (pipelined blockFree : Bool) (h : ∀ c ∈ calls, c.st = .idle) :
       Reachable fix (init calls pipelined blockFree)
